@@ -297,6 +297,22 @@ def rp(func):
     return f
 
 
+def post_metadata_setter(which):
+    def post(ip, ctx, out):
+        if out.raised('FileExistsError') or out.raised('AssertionError'):
+            return ip.prove('path-accounted', z3.BoolVal(True))
+        if not expect_no_other_exception(ip, out):
+            return
+        o = out.value
+        attrs = ip.ghost['disk'][str(o.fields['_filename'])]['attrs']
+        other = 'description' if which == 'name' else 'name'
+        ip.prove('file/metadata-setter-writes-its-own-key', z3.BoolVal(attrs.get(which) == 'new text'), {'stored': {k: attrs.get(k) for k in ('name', 'description')}})
+        ip.prove('file/metadata-setter-leaves-the-other-key', z3.BoolVal(attrs.get(other) == ctx['kwargs'][other]),
+                 {'stored': {k: attrs.get(k) for k in ('name', 'description')}})
+        ip.prove('file/metadata-setter-object-view', z3.BoolVal(ip.getattr(o, which) == 'new text' and ip.getattr(o, other) == ctx['kwargs'][other]))
+    return post
+
+
 def targets(tier='quick'):
     R = c16_registry()
     T = []
@@ -314,6 +330,12 @@ def targets(tier='quick'):
                                 post_export_import, RE, PROP, invoke=invoke_export_import, replay=rp('roundtrip'), max_paths=3000))
     from . import wire
     T += wire.targets_file(PROP)           # file-backed accessor and caps = in-memory ones (tnnorm)
+    # metadata assigned AFTER the file was created must reach the file under its own key (what a later import reads)
+    from . import c17
+    for which in ('name', 'description'):
+        T.append(Target('file/metadata-setter[%s]' % which, c17.CLS + '.__init__', c17.scen_mutator(which), post_metadata_setter(which),
+                        c17.base_registry(), PROP, invoke=c17.invoke_mutator,
+                        replay=lambda ob: {'func': 'rename_then_import', 'inputs': {'obligation': ob['name']}}))
     T.append(Target('import/bad-type', 'process_tensor.import_process_tensor', scen_import_bad, post_import_bad, RE, PROP,
                     invoke=invoke_export_import))
     return T
